@@ -14,7 +14,7 @@ if os.path.exists(p):
                          "VIOLATION no-failing-input-found" if "VIOLATION" in ln or w[-1] == "no-input" else "MISSED")
 rows = ["| seeded change | breaks | what was changed | needs | check result (last regression run) |", "|---|---|---|---|---|"]
 def key(d):
-    m = re.match(r"(C\d+)_(r\d_)?(\d+)", os.path.basename(d))
+    m = re.match(r"(C\d+)_(r\d+_)?(\d+)", os.path.basename(d))
     return (m.group(1), m.group(2) or "", int(m.group(3)))
 for d in sorted(glob.glob(os.path.join(V, "seeded", "C*")), key=key):
     m = json.load(open(os.path.join(d, "meta.json")))
